@@ -40,3 +40,72 @@ fn verif_native_arm_two_lives() {
         }
     }
 }
+
+/// independent decoder of the 12-byte entry sequence: where does the literal load read, and is it followed by an
+/// interworking branch through the loaded register? (T32: optional NOP, LDR Rt,[PC,#imm8*4], BX Rt; A32: LDR Rt,[PC,#+/-imm12], BX Rt)
+unsafe fn loaded_word(entry: *const u8, thumb: bool) -> Option<u32> {
+    let h = |o: usize| u16::from_le_bytes([*entry.add(o), *entry.add(o + 1)]);
+    let w = |o: usize| u32::from_le_bytes([*entry.add(o), *entry.add(o + 1), *entry.add(o + 2), *entry.add(o + 3)]);
+    let at = entry as usize;
+    if thumb {
+        let mut o = 0;
+        if h(0) == 0xBF00 || h(0) == 0x46C0 {
+            o = 2;
+        }
+        let ldr = h(o);
+        if ldr & 0xF800 != 0x4800 {
+            return None;
+        }
+        let (rt, imm) = ((ldr >> 8) & 7, (ldr & 0xFF) as usize * 4);
+        let bx = h(o + 2);
+        if bx & 0xFF87 != 0x4700 || ((bx >> 3) & 0xF) != rt {
+            return None;
+        }
+        let load = ((at + o + 4) & !3) + imm;
+        if load < at || load + 4 > at + 12 {
+            return None;
+        }
+        Some(w(load - at))
+    } else {
+        let ldr = w(0);
+        if ldr & 0xFF7F_0000 != 0xE51F_0000 {
+            return None;
+        }
+        let (up, rt, imm) = (ldr & 0x0080_0000 != 0, (ldr >> 12) & 0xF, (ldr & 0xFFF) as usize);
+        let bx = w(4);
+        if bx & 0xFFFF_FFF0 != 0xE12F_FF10 || (bx & 0xF) != rt {
+            return None;
+        }
+        let load = if up { at + 8 + imm } else { (at + 8).wrapping_sub(imm) };
+        if load < at || load + 4 > at + 12 {
+            return None;
+        }
+        Some(w(load - at))
+    }
+}
+
+/// C16 / C02 over a re-fake history (wave 10, seed C16-j): the same function faked twice while the first guard is
+/// alive, in ARM state and in Thumb state at 0 mod 4 and at 2 mod 4: after EACH installation the word read by the
+/// literal load is that installation's fake and an interworking branch follows; dropping newest-first restores.
+#[test]
+fn verif_native_arm_refake() {
+    unsafe {
+        let base = arena();
+        for (off, thumb) in [(64usize, false), (128, true), (194, true)] {
+            let entry = base.add(off);
+            for i in 0..16 {
+                *entry.add(i) = 0xA0 + i as u8;
+            }
+            let before = snap(base);
+            let t = thumb as usize;
+            let g0 = PatchArm::replace_function_with_other_function(fp(entry as usize | t), fp(0x2000_0001));
+            assert_eq!(loaded_word(entry, thumb), Some(0x2000_0001), "C16: first installation at offset {off} (thumb={thumb}) does not load its fake");
+            let g1 = PatchArm::replace_function_with_other_function(fp(entry as usize | t), fp(0x3456_7801));
+            assert_eq!(loaded_word(entry, thumb), Some(0x3456_7801), "C16: re-fake at offset {off} (thumb={thumb}): the entry does not decode to a literal load of the NEW fake followed by an interworking branch");
+            drop(g1);
+            assert_eq!(loaded_word(entry, thumb), Some(0x2000_0001), "C02: dropping the newer guard does not bring the older fake back at offset {off}");
+            drop(g0);
+            assert!(snap(base) == before, "C02: re-fake history at offset {off} not restored");
+        }
+    }
+}
